@@ -429,12 +429,29 @@ func c06Run(c *mon.Ctx) {
 	}
 }
 
+func c06Replay(kind string, raw json.RawMessage) (bool, string) {
+	var cs c06Case
+	if err := json.Unmarshal(raw, &cs); err != nil {
+		return false, err.Error()
+	}
+	p := mon.Lookup("C06")
+	n, known, first := mon.ReplayRun(p, func(c *mon.Ctx) {
+		for _, os := range c06OptSets() {
+			if cs.Options == "" || os.Name == cs.Options {
+				c06One(c, cs.Text, os)
+			}
+		}
+	})
+	return n > 0, fmt.Sprintf("violations=%d known=%v %s", n, known, first)
+}
+
 func init() {
 	mon.Register(&mon.Prop{
 		ID:          "C06",
 		Rule:        "grammar-generated documents (all 9 types + Circle convention, nesting <= 5, 2-4-D and mixed-dimension positions, null ordinates in points, duplicate and escaped reserved members, foreign members of any JSON shape in any order, random whitespace, odd number spellings, geometries and collections straddling the index thresholds) under the default options and one of {simple points, rects, both, indexes off, index@1 R-tree, circle type disabled}; each accepted text is serialised, reparsed, reserialised, compared bytewise, probed with 14 objects in both operand orders, and compared with the reference reading of the input (type, every x,y bit for bit, z/m of the declared dimensionality, child order, ordered foreign members, properties on every Feature). Non-trivial = distinct accepted (text, options) with nested objects or foreign members.",
 		Assumptions: []string{"reference reader internal/refjson; foreign members are compared after decoding (key unescaped, value canonical with the source spelling of numbers)", "padded ordinates of positions shorter than the declared dimensionality are not asserted", "known finding F10: objects parsed as Circle keep only the circle convention"},
 		Run:         c06Run,
+		Replay:      c06Replay,
 		MustSee:     []string{"accepted", "probe_hits"},
 	})
 }
